@@ -985,7 +985,7 @@ class Executor(object):
                 # a heap object (the result of unknown code): iterating it runs its own code - one ghost Op event; it yields n
                 # arbitrary items, or the unpacking fails
                 ref = st.fork().assume(Val.is_VRef(z)).label("L%d:unpack%d of an object" % (self.rel_line(target), n))
-                if self.feasible(ref):
+                if self.feasible(ref) and self.solver_feasible(ref):
                     relems = [SVal(fresh("unpacked", Val)) for _ in range(n)]
                     self.type_invariants(ref, relems)
                     ref.trace.append(("Op", "unpack", z, VL.nil, Val.VTuple(to_vl(relems))))
@@ -1064,6 +1064,15 @@ class Executor(object):
                 self.pruned = getattr(self, "pruned", 0) + 1
                 return False
         return True
+
+    def solver_feasible(self, st, ms=300):
+        """a path is dropped only when the solver proves its condition unsatisfiable (used where an alternative is rarely
+        possible - a heap object where plain values are expected - and exploring it would multiply the paths)"""
+        s = z3.Solver()
+        s.set("timeout", ms)
+        for h in st.pc:
+            s.add(h)
+        return s.check() != z3.unsat
 
     def truth_of(self, st, v):
         if isinstance(v, Obj) and v.kind == "vlist":
